@@ -98,6 +98,10 @@ func c16PushRequests() []Rpc {
 			out = append(out, Rpc{Kind: "createSub", Sub: r})
 		}
 	}
+	// endpoint strings of every kind the handler stores: the pusher is started with what was stored
+	for i, ep := range []string{"http://localhost:80a/push", "://x", "http://[::1", "%zz", " http://push.test/x", "http://push.test/\x7f", "push.test", "http://push.test/%", "ht tp://x", "http://user:pa ss@push.test/"} {
+		out = append(out, Rpc{Kind: "createSub", Sub: &SubReq{Name: SubName(fmt.Sprintf("pushep%d", i)), Topic: T, Push: &PushCfg{Endpoint: ep}}})
+	}
 	return out
 }
 
@@ -130,7 +134,11 @@ func c16PushOne(t *testing.T, rq Rpc) (st string, problem string) {
 		ctx, cancel := context.WithCancel(WithLabel(context.Background(), "stream"))
 		defer cancel()
 		w.Ctl.SpinGuard("stream", 400)
-		pusher := actions.NewHttpPusher(sub.Name, sub.ID, "http://push.test/x", &http.Client{Transport: rt}, w.Client)
+		endpoint := "http://push.test/x"
+		if sub.PushEndpoint != nil {
+			endpoint = *sub.PushEndpoint
+		}
+		pusher := actions.NewHttpPusher(sub.Name, sub.ID, endpoint, &http.Client{Transport: rt}, w.Client)
 		done := make(chan error, 1)
 		go func() { done <- pusher.Go(ctx) }()
 		synctest.Wait()
